@@ -17,7 +17,7 @@ ASSUMPTIONS = ['no schedule, clock or fault dimension: claimed as seeded program
 PROBES = []
 PLAN = {
   'quick': {'strata': {'general': 6000, 'deep': 4000}, 'wall_s': 300, 'chunk': 200, 'min_conclusive': 1000},
-  'thorough': {'strata': {'general': 200000, 'deep': 150000}, 'wall_s': 900, 'chunk': 500, 'min_conclusive': 10000},
+  'thorough': {'strata': {'general': 200000, 'deep': 150000}, 'wall_s': 900, 'chunk': 500, 'min_conclusive': 1000},
 }
 ORACLES = [co.check_start]
 
